@@ -267,8 +267,16 @@ func cmdEvents(o *Out, line string, f []string) {
 		o.violation(line, "persisted samples differ from the running totals of the events", map[string]interface{}{"index": k, "want": w, "got": g})
 		return
 	}
-	// decoded through a real FTDC collector
-	if out, err := snap.Collector.Resolve(); err == nil {
+	// decoded through a real FTDC collector, resolved through the EVENT collector itself (twice: resolving is reading,
+	// it persists nothing and changes nothing)
+	_, _ = c.Resolve()
+	_ = c.Info()
+	if len(snap.docs) != len(written) {
+		o.violation(line, "Resolve on the event collector persisted a sample (resolving must not add to what the events produced)",
+			map[string]int{"persisted_by_events": len(written), "after_resolve": len(snap.docs)})
+		return
+	}
+	if out, err := c.Resolve(); err == nil {
 		ctx, cancel := context.WithCancel(context.Background())
 		defer cancel()
 		docs, err := iterDocs(ftdc.ReadStructuredMetrics(ctx, bytes.NewReader(out)))
